@@ -71,6 +71,14 @@ Bad_SharedIdleCoversScope(S, topo) ==
 \* shared idle CPUs are never kernel-isolated
 Bad_SharedIdleIsolated(S, topo) == {b.name : b \in {b \in Blns(S) : \E t \in topo : t.isolated /\ t.cpu \in BShared(b)}}
 
+\* every available CPU carries the CPU class of its balloon, or else the idle class
+\*   cls: set of records [class, cpus]
+Bad_CpuClass(S, cls) ==
+    LET ClassesOf(c) == {k.class : k \in {k \in cls : c \in SetOfB(k.cpus)}}
+        Want(c) == LET own == {b \in Blns(S) : c \in BCpus(b)}
+                   IN IF own = {} THEN S.idleclass ELSE DefOf(S, CHOOSE b \in own : TRUE).cpuclass
+    IN {c \in SetOfB(S.allowed) : ClassesOf(c) # {Want(c)}}
+
 \* C09: with nothing alive only the pre-created balloons exist, at their configured minimum size, everything else idle
 BalloonNotPristine(S, S0) ==
     IF S0 = <<>> \/ S = <<>> THEN {}
@@ -84,7 +92,7 @@ BalloonNotPristine(S, S0) ==
             \cup (IF Cardinality(SetOfB(S.free)) = Cardinality(SetOfB(S0.free)) THEN {} ELSE {"freeCpus"})
 
 \* all C02 state predicates over a snapshot, as (predicate, witness) pairs
-BalloonState(S, ctrs, view, live, world, topo) ==
+BalloonState(S, ctrs, view, live, world, topo, cls) ==
     IF S = <<>> THEN {}
     ELSE LET \* containers opted out with cpu.preserve are not handled by the policy at all and legitimately hold nothing
              managed == {c \in DOMAIN ctrs : ctrs[c].st \in {"created", "running"} /\ ~ctrs[c].pcpu /\ c \in live}
@@ -104,4 +112,5 @@ BalloonState(S, ctrs, view, live, world, topo) ==
             \cup {<<"Inv_ToldIsCpusPlusShared", w>> : w \in Bad_ToldIsCpusPlusShared(S, T, pinned, hide)}
             \cup {<<"Inv_SharedIdleCoversScope", w>> : w \in Bad_SharedIdleCoversScope(S, topo)}
             \cup {<<"Inv_SharedIdleNotIsolated", w>> : w \in Bad_SharedIdleIsolated(S, topo)}
+            \cup {<<"Inv_CpuClass", w>> : w \in Bad_CpuClass(S, cls)}
 =============================================================================
